@@ -154,10 +154,13 @@ def slice_region(repo, rel, path, segs):
     out = []
     last_end = -1
     for frm, to in segs:
+        after = frm.startswith("after:")
+        if after:
+            frm = frm[len("after:"):]
         starts = [i for i, l in enumerate(lines) if l.strip().startswith(frm)]
         if len(starts) != 1:
             raise GenError("region start `%s` matches %d lines in %s" % (frm, len(starts), path))
-        s = starts[0]
+        s = starts[0] + (1 if after else 0)
         if s <= last_end:
             raise GenError("region segments out of order in %s" % path)
         if to is None:
@@ -167,12 +170,28 @@ def slice_region(repo, rel, path, segs):
             cb = rl.match_close(ct, ob)
             seg = rest[:ct[cb].end].split("\n")
             e = s + len(seg) - 1
+        elif to == "end:":
+            e = len(lines) - 2      # last line before the fn's closing brace
+            while e > s and not lines[e].strip():
+                e -= 1
+            seg = lines[s:e + 1]
+        elif to.startswith("before:"):
+            q = to[len("before:"):]
+            ends = [i for i, l in enumerate(lines) if i >= s and l.strip().startswith(q)]
+            if not ends:
+                raise GenError("region end `%s` not found in %s" % (q, path))
+            e = ends[0] - 1
+            while e > s and not lines[e].strip():
+                e -= 1
+            seg = lines[s:e + 1]
         else:
             ends = [i for i, l in enumerate(lines) if i >= s and l.strip().startswith(to)]
             if not ends:
                 raise GenError("region end `%s` not found in %s" % (to, path))
             e = ends[0]
             seg = lines[s:e + 1]
+        while seg and not seg[0].strip():
+            seg = seg[1:]
         ind = len(seg[0]) - len(seg[0].lstrip())
         seg = [(l[ind:] if l[:ind].strip() == "" else l.lstrip()) for l in seg]
         out.extend(seg)
@@ -473,9 +492,12 @@ def generate(spec_path, repo, vacuity=False):
             segs = []
             pathparts = []
             for p in parts[1:]:
-                m = re.match(r'seg "(.*)" \.\. "(.*)"$', p)
+                m = re.match(r'seg (after )?"(.*)" \.\. (before )?"(.*)"$', p)
                 if m:
-                    segs.append((m.group(1), m.group(2))); continue
+                    segs.append((("after:" if m.group(1) else "") + m.group(2), ("before:" if m.group(3) else "") + m.group(4))); continue
+                m = re.match(r'seg (after )?"(.*)" \.\. end$', p)
+                if m:
+                    segs.append((("after:" if m.group(1) else "") + m.group(2), "end:")); continue
                 m = re.match(r'seg "(.*)" \.\. brace$', p)
                 if m:
                     segs.append((m.group(1), None)); continue
